@@ -2,8 +2,9 @@
 Model of the energy / pressure side of stream mixing and of the enthalpy and entropy
 setters of thermosteam:
 
-  * `Stream.mix_from` (thermosteam/_stream.py), energy path with `energy_balance=True`,
-    `vle=False`: the count of non-empty inlets N = 0 / 1 / ≥ 2, heat and power objects folded
+  * `Stream.mix_from` (thermosteam/_stream.py); `mixFrom` is the energy path with `energy_balance=True`,
+    `vle=False`, `mixFromX` adds `vle=True` (the equilibrium result is a parameter) and
+    `energy_balance=False`: the count of non-empty inlets N = 0 / 1 / ≥ 2, heat and power objects folded
     into `Q`, `P := min P_in`, `H_out := Σ H_in + Q`, `conserve_phases`, and the bare
     `except:` fallback that re-phases the receiver to the union of all phases and assigns `H` again;
   * `Stream.separate_out`: a no-op for `None` / an empty stream, else `H_new = H − other.H`, then the
@@ -154,12 +155,14 @@ structure Feed (α : Type) where
   T : α
   ph : PhaseState
   phaseStr : List Phase
+  /-- the receiver itself is this inlet -/
+  isSelf : Bool
   deriving Repr
 
 /-- `streams`: the non-empty `Stream` entries, in order -/
 def feeds : List (Inlet α) → List (Feed α)
   | [] => []
-  | .stream false H P T ph s _ :: t => ⟨H, P, T, ph, s⟩ :: feeds t
+  | .stream false H P T ph s b :: t => ⟨H, P, T, ph, s, b⟩ :: feeds t
   | _ :: t => feeds t
 
 /-- `Q += i.heat` for every heat / power object, in order -/
@@ -182,12 +185,18 @@ def othersPhases (selfStr : List Phase) : List (Inlet α) → List Phase
   | .stream _ _ _ _ _ s isSelf :: t => (if isSelf then selfStr else s) ++ othersPhases selfStr t
   | _ :: t => othersPhases selfStr t
 
+/-- the phases a stream's indexer carries: its phase, or the whole phase tuple of a `MultiStream` -/
+def PhaseState.all : PhaseState → List Phase
+  | .single p => [p]
+  | .multi ps => ps
+
 /-- `copy_like` as far as phase, T, P go: a `Stream` takes the phase state of the source, a
-`MultiStream` keeps its own phases -/
+`MultiStream` keeps its own phases and gains the source's phases it does not have yet
+(`MaterialIndexer.copy_like` → `_expand_phases`) -/
 def copyLike (recv : St α) (f : Feed α) : St α :=
   { ph := (match recv.ph with
            | .single _ => f.ph
-           | .multi ps => .multi ps),
+           | .multi ps => .multi (canon (ps ++ f.ph.all))),
     T := f.T, P := f.P, empty := false }
 
 /-- `set_main_phase` inside `ChemicalIndexer.mix_from`: a single-phase receiver takes the phase of
@@ -200,8 +209,20 @@ def mainPhase (ph : PhaseState) (fs : List (Feed α)) : PhaseState :=
     | .multi _ => ph
   | _, _ => ph
 
+/-- `MaterialIndexer.mix_from`: a multi-phase receiver gains the phases of the inlets it does not have
+yet (`_expand_phases`); a single-phase receiver is left alone.  An inlet that is the receiver itself has,
+by then, the receiver's phases and adds none. -/
+def expandMulti (ph : PhaseState) (fs : List (Feed α)) : PhaseState :=
+  match ph with
+  | .single p => .single p
+  | .multi ps => .multi (canon (ps ++ ((fs.filter (fun f => !f.isSelf)).map (·.ph.all)).foldr (· ++ ·) []))
+
+/-- the phase state after `self._imol.mix_from(streams)` -/
+def mixPhase (ph : PhaseState) (fs : List (Feed α)) : PhaseState :=
+  expandMulti (mainPhase ph fs) fs
+
 inductive Tag where
-  | n0 | n1 | n1q | n2 | n2cp | n2fb | sepNone | sep
+  | n0 | n1 | n1q | n2 | n2cp | n2fb | sepNone | sep | n1m | n2m | n2vle
   deriving DecidableEq, Repr
 
 structure MixOut (α : Type) where
@@ -235,12 +256,12 @@ def mixFrom (solve : Solver α) (recv : St α) (rphase0 : List Phase) (ins : Lis
     let H := sumFrom Q' ((f :: fs).map (·.H))
     let st1 : St α := { recv with P := P }
     if cp then
-      let st2 : St α := { st1 with ph := mainPhase (setPhases (rphase0 ++ othersPhases rphase0 ins)) (f :: fs),
+      let st2 : St α := { st1 with ph := mixPhase (setPhases (rphase0 ++ othersPhases rphase0 ins)) (f :: fs),
                                    empty := false }
       let r := setEnergy solve 0 st2 H
       ⟨r.st, r.out, r.k, some H, .n2cp, r.qs⟩
     else
-      let st2 : St α := { st1 with ph := mainPhase st1.ph (f :: fs), empty := false }
+      let st2 : St α := { st1 with ph := mixPhase st1.ph (f :: fs), empty := false }
       let r := setEnergy solve 0 st2 H
       match r.out with
       | .ok => ⟨r.st, .ok, r.k, some H, .n2, r.qs⟩
@@ -249,9 +270,87 @@ def mixFrom (solve : Solver α) (recv : St α) (rphase0 : List Phase) (ins : Lis
         -- common phase of all inlets, so it does not appear here
         let held := ((f :: fs).map (·.phaseStr)).foldr (· ++ ·) []
         let cur := r.st.ph.phaseStr held
-        let st3 : St α := { r.st with ph := setPhases (cur ++ othersPhases cur ins) }
+        let st3 : St α := { r.st with ph := expandMulti (setPhases (cur ++ othersPhases cur ins)) (f :: fs) }
         let r2 := setEnergy solve r.k st3 H
         ⟨r2.st, r2.out, r2.k, some H, .n2fb, r.qs ++ r2.qs⟩
+
+/-! ### `mix_from` with `vle=True` and / or `energy_balance=False`
+
+The vapour-liquid equilibrium (`stream.vle(H=, P=)` / `vle(T=, P=)`, thermosteam/equilibrium/vle.py) is a
+parameter: what it was asked for and what it left behind (temperature, the phases that hold
+material) or that it raised. -/
+
+/-- the specification handed to `self.vle(...)` -/
+inductive VleSpec (α : Type) where
+  | HP (H P : α)
+  | TP (T P : α)
+  deriving Repr
+
+/-- what the equilibrium left: the temperature and the phases holding material -/
+structure VleRes (α : Type) where
+  T : α
+  nonEmpty : List Phase
+  deriving Repr
+
+abbrev VleRun (α : Type) := VleSpec α → Option (VleRes α)
+
+/-- the `vle` property of a `Stream` makes it a `MultiStream` over `('g', 'l')`; a `MultiStream` keeps
+its phases -/
+def vlePhases : PhaseState → PhaseState
+  | .single _ => .multi [.g, .l]
+  | .multi ps => .multi ps
+
+/-- `reduce_phases()` of a `MultiStream` (`self.phase = self.phase`): the phases that hold material
+remain; one of them makes a single-phase `Stream`, none the default liquid -/
+def reducePhases (nonEmpty : List Phase) : PhaseState :=
+  match canon (nonEmpty.map groupRep) with
+  | [] => .single .l
+  | [p] => .single p
+  | ps => .multi ps
+
+/--
+`recv.mix_from(ins, energy_balance=eb, vle=vle, Q=Q, conserve_phases=cp)` in full.  With the
+energy balance on and no equilibrium it is `mixFrom`.  Otherwise:
+
+* no non-empty inlet: the receiver is emptied;
+* one non-empty inlet: `vle` is ignored; with the energy balance on the copy path of `mixFrom`,
+  without it only the material is mixed in (`self._imol.mix_from([inlet._imol])`) — T and P stay;
+* two or more: `P := min`, `conserve_phases`, the material, then `vle(H = Σ H_in + Q, P)` resp.
+  `vle(T = self.T, P)` followed by `reduce_phases()`, or nothing more when there is neither energy
+  balance nor equilibrium (T stays).
+-/
+def mixFromX (solve : Solver α) (vleRun : VleRun α) (recv : St α) (rphase0 : List Phase)
+    (ins : List (Inlet α)) (Q : α) (cp eb vle : Bool) : MixOut α :=
+  if eb && !vle then mixFrom solve recv rphase0 ins Q cp
+  else
+    let Q' := heatSum Q ins
+    match feeds ins with
+    | [] => ⟨{ recv with empty := true }, .ok, 0, none, .n0, []⟩
+    | [f] =>
+      if eb then mixFrom solve recv rphase0 ins Q cp
+      else ⟨{ recv with ph := mixPhase recv.ph [f], empty := false }, .ok, 0, none, .n1m, []⟩
+    | f :: fs =>
+      let P := minList f.P (fs.map (·.P))
+      let H := sumFrom Q' ((f :: fs).map (·.H))
+      let ph1 := if cp then setPhases (rphase0 ++ othersPhases rphase0 ins) else recv.ph
+      let st2 : St α := { recv with P := P, ph := mixPhase ph1 (f :: fs), empty := false }
+      if vle then
+        let spec : VleSpec α := if eb then .HP H P else .TP recv.T P
+        match vleRun spec with
+        | Option.none => ⟨{ st2 with ph := vlePhases st2.ph }, .raised, 0, (if eb then some H else none), .n2vle, []⟩
+        | some r =>
+          ⟨{ st2 with ph := reducePhases r.nonEmpty, T := r.T }, .ok, 0, (if eb then some H else none), .n2vle, []⟩
+      else ⟨st2, .ok, 0, none, .n2m, []⟩
+
+/-- the specification `mix_from` hands to the equilibrium, if it calls it at all -/
+def vleSpecX (recv : St α) (ins : List (Inlet α)) (Q : α) (eb vle : Bool) : Option (VleSpec α) :=
+  if vle then
+    match feeds ins with
+    | f :: g :: fs =>
+      let P := minList f.P ((g :: fs).map (·.P))
+      some (if eb then .HP (sumFrom (heatSum Q ins) ((f :: g :: fs).map (·.H))) P else .TP recv.T P)
+    | _ => none
+  else none
 
 /--
 `self.separate_out(other, energy_balance=True)`:
